@@ -97,7 +97,7 @@ func newGroup(o ...mux.Option) *mux.Group[*hv.H] {
 }
 
 var hostileHosts = func() []string {
-	hs := []string{"", "*", "a", "A.b", "a:", "a:80", "a:x", "[::1]", "[::1]:80", "[", "]", ":", "a.com", "A.COM:80", "s.b.com", "[a.com]", "a.com:", "::", ":::", "[]", "[]:", "[:]"}
+	hs := []string{"\u212a\u212a\u212a.b.com:8080", "\u212a.b.com:80", "[\u212a\u212a.b.com]:1", "\u0130.b.com:80", "", "*", "a", "A.b", "a:", "a:80", "a:x", "[::1]", "[::1]:80", "[", "]", ":", "a.com", "A.COM:80", "s.b.com", "[a.com]", "a.com:", "::", ":::", "[]", "[]:", "[:]"}
 	explore.Strings([]byte{'a', '.', ':', '[', ']', '*', '{', 0xff}, "", 3, func(s string) { hs = append(hs, s) })
 	return hs
 }()
